@@ -61,7 +61,7 @@ def step (a : Accts) (last : Option Row) (r : Row) : Res (Option Row × List Dir
     | none => .panic
     | some sym =>
       let proceeds := r.net + r.fee
-      let qty := if 0 < proceeds then -r.quantity else r.quantity
+      let qty := if r.trxType = "Verkauf" then -r.quantity else r.quantity
       let desc := joinWith " " [r.orderNo, r.trxType, decStr r.quantity, "x", sym, r.name, r.isin, "@", decStr r.price, r.currency]
       .ok (last, [mkTx r.date desc
         [⟨a.trading, a.account, sym, qty⟩, ⟨a.trading, a.account, r.currency, proceeds⟩, ⟨a.fee, a.account, r.currency, -r.fee⟩]
